@@ -44,6 +44,9 @@ def check(ctx):
     load(ctx, prog, hier)
     filename(ctx, prog, ev)
     cipher(ctx, prog)
+    # "publish … produces blobs stored under their SHA-384": create_from_unencrypted waits for `verified`; that this means "the bytes are in the
+    # file" is C01's chain writer -> save_verified_blob -> write task -> executor job — those rule instances are evaluated here as well
+    R.share(ctx, "C01", {"C01-D6/AWAIT": "C02-D7/AWAIT", "C01-D6/DEP": "C02-D7/DEP", "C01-D6/OVERRIDE": "C02-D7/OVERRIDE", "C01-D5/DEP": "C02-D7/CHAIN", "C01-D5/ORDER": "C02-D7/ORDER"})
 
 
 def chunking(ctx, prog, ev):
